@@ -1,6 +1,7 @@
 import ComposeVerif.Lemmas.C11Top
 import ComposeVerif.Lemmas.C11Shape
 import ComposeVerif.Lemmas.C11Walk
+import ComposeVerif.Lemmas.PathsClean
 import ComposeVerif.Neg.C11
 import ComposeVerif.Lemmas.AuditCmd
 import ComposeVerif.Lemmas.Path
@@ -514,6 +515,19 @@ example : normalize id [] [("name", .str "p"), ("services", .map [("a", .map [("
          ("services", .map [("a", .map [("links", .seq [.str "b"]), ("networks", defaultNet), ("depends_on", .map [("b", depEntry true)])]),
                             ("b", .map [("networks", defaultNet)])]),
          ("networks", .map [("default", .map [("name", .str "p_default")])])] := by rfl
+
+/-- the model of Go's `path.Clean` used by the driver is idempotent (C12's `clean_idem`) -/
+theorem pathClean_idempotent (s : String) : pathClean (pathClean s) = pathClean s := by
+  simp [pathClean, CV.Paths.clean_idem]
+
+/-- `Normalize` as the driver runs it (with `pathClean`): idempotent, no hypothesis about `path.Clean` left -/
+theorem normalize_idem_pathClean (env : Env) (henv : envLookup env "" = none) (d : KVs) :
+    normalizePure pathClean env (normalizePure pathClean env d) = normalizePure pathClean env d :=
+  normalizePure_idem pathClean pathClean_idempotent env henv d
+
+theorem implicit_eq_explicit_pathClean (env : Env) (henv : envLookup env "" = none) (d e : KVs)
+    (h : normalize pathClean env d = .ok e) : normalize pathClean env e = normalize pathClean env d := by
+  rw [h]; exact normalize_ok_fixed pathClean pathClean_idempotent env henv d e h
 
 example : envLookup [("FOO", "bar")] "" = none := by decide
 example : ∀ s, (id : String → String) (id s) = id s := fun _ => rfl
